@@ -1,11 +1,13 @@
 (** ParseCompleteUtf8.v — agreement of the parser model's escape arithmetic (shifts and masks,
     ParseDefs.v: [hex_val], [utf8_encode_c], the surrogate-pair formula of
     utf16_literal_to_utf8) with the independently written arithmetic of Grammar.v ([hexv],
-    [utf8_of_codepoint], [pair_codepoint]).  The two finite domains (the 0x110000 code points;
-    the 1024 x 1024 surrogate pairs) are closed by exhaustive boolean sweeps evaluated by
-    [vm_compute] and lifted to a universally quantified statement by [range_all_spec]; the
-    bounds appear in the theorem statements.  Kept in its own file so that it compiles once. *)
+    [utf8_of_codepoint], [pair_codepoint]).  The UTF-8 and surrogate-pair statements are the
+    lemmas of ParseSoundUtf8.v (bit operations reduced to division and remainder by the
+    standard lemmas, then facts about single bytes checked on at most 256 values): an
+    exhaustive [vm_compute] sweep of the 0x110000 code points compiles in a minute but takes
+    coqchk, which has no VM, more than 50 minutes. *)
 From CJ Require Import Base Dbl Tree ParseDefs Grammar.
+From CJ Require ParseSoundUtf8.
 Local Open Scope Z_scope.
 
 (** [range_all f lo k]: f holds on the 2^k integers lo, lo+1, ..., lo + 2^k - 1 *)
@@ -60,30 +62,9 @@ Proof.
 Qed.
 
 (** * UTF-8 encoding: all 0x110000 code points *)
-Definition utf8_agree (cp : Z) : bool :=
-  match utf8_encode_c cp with
-  | Some b => bytes_eqb b (utf8_of_codepoint cp)
-  | None => false
-  end.
-
-(* 0x110000 = 2^20 + 2^16 *)
-Lemma utf8_sweep_lo : range_all utf8_agree 0 20 = true.
-Proof. vm_cast_no_check (@eq_refl bool true). Qed.
-Lemma utf8_sweep_hi : range_all utf8_agree 1048576 16 = true.
-Proof. vm_cast_no_check (@eq_refl bool true). Qed.
-
 Theorem utf8_encode_c_spec : forall cp, 0 <= cp <= 1114111 ->
   utf8_encode_c cp = Some (utf8_of_codepoint cp).
-Proof.
-  intros cp Hcp.
-  assert (H : utf8_agree cp = true).
-  { destruct (Z.ltb_spec cp 1048576) as [Hlt|Hge].
-    - apply (range_all_spec utf8_agree 20 0 utf8_sweep_lo). change (2 ^ Z.of_nat 20) with 1048576. lia.
-    - apply (range_all_spec utf8_agree 16 1048576 utf8_sweep_hi). change (2 ^ Z.of_nat 16) with 65536. lia. }
-  unfold utf8_agree in H.
-  destruct (utf8_encode_c cp) as [b|]; [|discriminate].
-  apply bytes_eqb_eq in H. congruence.
-Qed.
+Proof. exact ParseSoundUtf8.utf8_encode_agrees. Qed.
 
 (** the encoder refuses exactly the values above U+10FFFF (not needed below; sanity) *)
 Lemma utf8_encode_c_none cp : 1114111 < cp -> utf8_encode_c cp = None.
@@ -99,23 +80,13 @@ Qed.
 Definition pair_formula_c (hi lo : Z) : Z :=
   65536 + Z.lor (Z.shiftl (Z.land hi 1023) 10) (Z.land lo 1023).
 
-Definition pair_agree (hi : Z) : bool :=
-  range_all (fun lo => pair_formula_c hi lo =? pair_codepoint hi lo) 56320 10.
-
-Lemma pair_sweep : range_all pair_agree 55296 10 = true.
-Proof. vm_cast_no_check (@eq_refl bool true). Qed.
-
 Theorem pair_formula_spec : forall hi lo,
   55296 <= hi <= 56319 -> 56320 <= lo <= 57343 ->
   65536 + Z.lor (Z.shiftl (Z.land hi 1023) 10) (Z.land lo 1023) = pair_codepoint hi lo.
 Proof.
-  intros hi lo Hhi Hlo.
-  assert (H : pair_agree hi = true).
-  { apply (range_all_spec pair_agree 10 55296 pair_sweep). change (2 ^ Z.of_nat 10) with 1024. lia. }
-  unfold pair_agree in H.
-  assert (H2 := range_all_spec _ 10 56320 H lo).
-  change (2 ^ Z.of_nat 10) with 1024 in H2.
-  apply Z.eqb_eq. apply H2. lia.
+  intros hi lo Hhi Hlo. apply ParseSoundUtf8.pair_formula.
+  - unfold is_high_surrogate. apply andb_true_iff. split; apply Z.leb_le; lia.
+  - unfold is_low_surrogate. apply andb_true_iff. split; apply Z.leb_le; lia.
 Qed.
 
 Lemma pair_codepoint_range hi lo :
